@@ -359,7 +359,11 @@ impl Check for C15 {
         let pool = &POOLS[lang];
         let cfg = GenCfg::swarm(rng);
         // one run in 48 is a long stream (positions beyond 64, 128, 256)
-        let len = if rng.chance(1, 48) { rng.range(60, 300) } else { rng.range(0, 40) };
+        let len = match rng.below(480) {
+            0 => rng.range(800, 2500),
+            1..=10 => rng.range(60, 300),
+            _ => rng.range(0, 40),
+        };
         let extra = rng.range(0, 8);
         let mut toks = gen_stream(rng, pool, &cfg, len + extra);
         // EOF at an arbitrary instant, biased to land inside in-flight state
